@@ -113,6 +113,10 @@ class Engine:
         sysv = self.sim.v["sys"]
         env = dict(sysv.mod.__dict__)
         env.update(sysv.inst)
+        import ptera.tools as tools
+
+        for name in ("every", "between", "lt", "gt", "lte", "gte", "throttle"):
+            env.setdefault(name, getattr(tools, name))
         env.update(sysv.tooled_names if hasattr(sysv, "tooled_names") else {})
         return env
 
@@ -393,6 +397,26 @@ class Engine:
         }
         return ob, res
 
+    def closure_override(self, op):
+        """An active, never-declining overrider aimed at a closure variable of the
+        function this operation calls directly."""
+        if op["op"] != "call":
+            return None
+        q = op["fn"]
+        if q.split(".")[0] in self.sim.v["sys"].inst:
+            return None
+        fnir = self.sim.fnir.get(q)
+        if not fnir:
+            return None
+        for pid in self.order:
+            rec = self.probes[pid]
+            how = rec.spec.get("how")
+            if how and how[0] == "const":
+                sel = rec.spec["sels"][0]
+                if sel["levels"][-1]["fn"] == q and sel["focus"]["var"] in fnir.get("free", ()):
+                    return [pid, rec.strs]
+        return None
+
     def bind_hook(self, fn, var, value, act, tracer):
         """M-py's definition of substitution: the overriders that are active, in
         activation order, each seeing the original tentative value and the
@@ -408,14 +432,27 @@ class Engine:
             sel = rec.spec["sels"][0]
             if sel["levels"][-1]["fn"] != fn or sel["focus"]["var"] != var:
                 continue
-            ctx = {}
-            for cap in sel["levels"][-1].get("caps", []):
-                if cap["var"] in lat:
-                    ctx[cap.get("as") or cap["var"]] = lat[cap["var"]]
-            r = apply_override(how, value, ctx)
-            self.sim.reach("override_applied" if r is not DECLINE else "override_declined")
-            if r is not DECLINE:
-                new = r
+            # one intercept per way the chain matches the live stack, in order
+            stack = list(tracer.stack)
+            if not stack or stack[-1] is not act:
+                stack = [a for a in stack if a is not act] + [act]
+            level_fns = [lv["fn"] for lv in sel["levels"]]
+            for emb in msel._embeddings(level_fns, [a.fn for a in stack]):
+                ctx = {}
+                for j, idx in enumerate(emb):
+                    alat = self._latest.get(stack[idx].id, {})
+                    for cap in sel["levels"][j].get("caps", []):
+                        if cap["var"] in alat:
+                            ctx[cap.get("as") or cap["var"]] = alat[cap["var"]]
+                d = {k: canon(v) for k, v in ctx.items()}
+                d[sel["focus"].get("as") or var] = canon(value)
+                if not msel._conds_hold(sel, d):
+                    self.sim.reach("override_condition_false")
+                    continue
+                r = apply_override(how, value, ctx)
+                self.sim.reach("override_applied" if r is not DECLINE else "override_declined")
+                if r is not DECLINE:
+                    new = r
         lat[var] = new
         return new
 
@@ -589,10 +626,17 @@ class Engine:
                     "C01.same_envlog",
                     {"op": op, "ref": r["ref"]["log"], "sys": r["sys"]["log"]},
                 )
+        closure_ov = self.closure_override(op)
+        if closure_ov:
+            self.sim.reach("closure_override_attempt")
+            o = r["sys"]["out"]
+            if not (o[0] == "exc" and o[1][1] == "OverrideException"):
+                self.violate("C04.closure_refused", {"op": op, "overrider": closure_ov, "sys": r["sys"]})
+            return o
         if "trc" in r and "sys" in r and self.overriding_active() and not raised_now:
             if r["sys"]["out"] != r["trc"]["out"] or r["sys"]["log"] != r["trc"]["log"]:
                 self.violate(
-                    "C04.substitution",
+                    self.sc.get("subst_inv", "C04.substitution"),
                     {"op": op, "model": r["trc"], "sys": r["sys"],
                      "overriders": [[p, self.probes[p].strs, self.probes[p].spec.get("how")]
                                     for p in self.order if self.probes[p].spec.get("how")]},
